@@ -573,6 +573,7 @@ fn dbg(ctx: &Ctx, bi: Bi, what: &str, call: &Value) -> Value {
 fn next(ctx: &mut Ctx, call: &Value) -> Value {
     let id = out::arg_u64(call, "it");
     let base = ctx.base;
+    let ctx_ext = ctx.ext;
     let off = |p: *const u8| json!(out::clamp(p as usize as i128 - base as usize as i128));
     match ctx.its.get_mut(&id) {
         None => out::skipped(),
@@ -615,7 +616,7 @@ fn next(ctx: &mut Ctx, call: &Value) -> Value {
         },
         Some(It::Elf(it)) => match it.next() {
             None => out::none(),
-            Some(s) => out::some(super::elf::section_json(&s)),
+            Some(s) => out::some(super::elf::section_json(&s, if call["names"].as_bool().unwrap_or(false) { ctx_ext } else { None })),
         },
         Some(_) => out::unsupported(),
     }
